@@ -231,24 +231,32 @@ func min64(a, b int64) int64 {
 type fixed struct {
 	Name string
 	H    history
+	Q    []query // asked after the full-range query, before the generated ones
 }
 
 func corpus() []fixed {
 	return []fixed{
 		// the fixed defect (old cut-off rule): an out-of-order block sorts last
-		{"ooo-block-last", history{N: 1, Window: 100000, Ops: []hop{tx(0, 100), tx(0, 200), tx(0, 150), {Kind: "compactooo"}}}},
+		{Name: "ooo-block-last", H: history{N: 1, Window: 100000, Ops: []hop{tx(0, 100), tx(0, 200), tx(0, 150), {Kind: "compactooo"}}}},
 		// out-of-order sample in the WBL below the in-order block's MaxTime
-		{"wbl-below-block-maxt", history{N: 1, Window: 100000, Ops: []hop{tx(0, 100), tx(0, 200), tx(0, 1700), tx(0, 1800), {Kind: "compact"}, tx(0, 500)}}},
+		{Name: "wbl-below-block-maxt", H: history{N: 1, Window: 100000, Ops: []hop{tx(0, 100), tx(0, 200), tx(0, 1700), tx(0, 1800), {Kind: "compact"}, tx(0, 500)}},
+			Q: []query{{Mint: 0, Maxt: 900, Sel: []int{0}}}},
+		// the same directory asked exactly at the cut-off: the head must be loaded
+		{Name: "wbl-at-block-maxt", H: history{N: 1, Window: 100000, Ops: []hop{tx(0, 100), tx(0, 200), tx(0, 1700), tx(0, 1800), {Kind: "compact"}, tx(0, 500)}},
+			Q: []query{{Mint: 0, Maxt: 1000, Sel: []int{0}, Outside: true}, {Mint: 400, Maxt: 1000, Sel: []int{0}, Chunk: true}}},
+		// an in-order head sample exactly at the cut-off
+		{Name: "sample-at-cutoff", H: history{N: 1, Window: 0, Unclean: true, Ops: []hop{tx(0, 100), tx(0, 1000), tx(0, 1700), {Kind: "compact"}}},
+			Q: []query{{Mint: 900, Maxt: 1000, Sel: []int{0}}, {Mint: 1000, Maxt: 1000, Sel: []int{0}, Chunk: true, Outside: true}}},
 		// head compaction, unclean shutdown, two series
-		{"unclean-after-compaction", history{N: 2, Window: 0, Unclean: true, Ops: []hop{tx(0, 100, 400), tx(1, 250), tx(0, 1100), tx(1, 1700), tx(0, 2600), {Kind: "compact"}, tx(1, 2700)}}},
+		{Name: "unclean-after-compaction", H: history{N: 2, Window: 0, Unclean: true, Ops: []hop{tx(0, 100, 400), tx(1, 250), tx(0, 1100), tx(1, 1700), tx(0, 2600), {Kind: "compact"}, tx(1, 2700)}}},
 		// out-of-order data only in the WBL, no block at all
-		{"wbl-only", history{N: 1, Window: 100000, Ops: []hop{tx(0, 100), tx(0, 200), tx(0, 300), tx(0, 150)}}},
+		{Name: "wbl-only", H: history{N: 1, Window: 100000, Ops: []hop{tx(0, 100), tx(0, 200), tx(0, 300), tx(0, 150)}}},
 		// a block compacted from selected series
-		{"selected-series-block", history{N: 2, Window: 0, Ops: []hop{tx(0, 100), tx(1, 120), tx(0, 200), tx(1, 220), {Kind: "selected", S: []int{0}}, tx(1, 300)}}},
+		{Name: "selected-series-block", H: history{N: 2, Window: 0, Ops: []hop{tx(0, 100), tx(1, 120), tx(0, 200), tx(1, 220), {Kind: "selected", S: []int{0}}, tx(1, 300)}}},
 		// negative times, unclean, out-of-order and in-order blocks overlapping
-		{"overlap-negative", history{N: 2, Window: 2500, Unclean: true, Ops: []hop{tx(0, -2600), tx(1, -2000), tx(0, -900), tx(0, 300), tx(1, 900), {Kind: "compact"}, tx(1, -500), tx(0, -1200), {Kind: "compactooo"}, tx(0, 1300)}}},
+		{Name: "overlap-negative", H: history{N: 2, Window: 2500, Unclean: true, Ops: []hop{tx(0, -2600), tx(1, -2000), tx(0, -900), tx(0, 300), tx(1, 900), {Kind: "compact"}, tx(1, -500), tx(0, -1200), {Kind: "compactooo"}, tx(0, 1300)}}},
 		// empty directory
-		{"empty", history{N: 1, Window: 0}},
+		{Name: "empty", H: history{N: 1, Window: 0}},
 	}
 }
 
@@ -706,7 +714,7 @@ func nonEmpty(a []tsdbx.Series) []tsdbx.Series {
 	return out
 }
 
-func runCase(id int, name string, h history, g *gen.Rand, outDir string, nq int, cf *gallina.CaseFile, meta *gallina.Meta) {
+func runCase(id int, name string, h history, fq []query, g *gen.Rand, outDir string, nq int, cf *gallina.CaseFile, meta *gallina.Meta) {
 	t0 := time.Now()
 	lap := func(what string) {
 		if os.Getenv("C53_TRACE") != "" {
@@ -817,6 +825,7 @@ func runCase(id int, name string, h history, g *gen.Rand, outDir string, nq int,
 	// 3. queries
 	var qs []query
 	qs = append(qs, query{Mint: math.MinInt64, Maxt: math.MaxInt64, Sel: all})
+	qs = append(qs, fq...)
 	for len(qs) < nq {
 		var q query
 		q.Chunk = g.Chance(1, 3)
@@ -1114,20 +1123,20 @@ func main() {
 		fmt.Sscanf(s, "%d", &only)
 	}
 	distinct := map[string]bool{}
-	run := func(name string, h history, g *gen.Rand) {
+	run := func(name string, h history, fq []query, g *gen.Rand) {
 		if only < 0 || only == id {
-			runCase(id, name, h, g, f.Out, nq, cf, meta)
+			runCase(id, name, h, fq, g, f.Out, nq, cf, meta)
 			distinct[fmt.Sprintf("%v", h)] = true
 		}
 		id++
 	}
 	for _, c := range corpus() {
-		run(c.Name, c.H, gen.Fork(f.Seed, id))
+		run(c.Name, c.H, c.Q, gen.Fork(f.Seed, id))
 	}
-	n := f.Count(13, 250)
+	n := f.Count(11, 240)
 	for i := 0; i < n; i++ {
 		g := gen.Fork(f.Seed, id)
-		run("random", genHistory(g), g)
+		run("random", genHistory(g), nil, g)
 	}
 	cf.Flush()
 	meta.Evaluations = 2 * id
